@@ -81,3 +81,16 @@ Theorem C01_canon_zbdd_handles : forall s, WF s -> s_kind s = KZbdd -> terms_kin
      sem_edge s (snd h1) c = sem_edge s (snd h2) c).
 Proof. exact canon_zbdd_handles. Qed.
 Print Assumptions C01_canon_zbdd_handles.
+
+(* the BCDD / ZBDD hypotheses are satisfiable (concrete snapshots with inner nodes) *)
+Theorem C01_example_bcdd : WF ex_bcdd /\ terms_kind ex_bcdd.
+Proof. exact (proj1 (wf_full_b_spec ex_bcdd) (proj1 ex_bcdd_ok)). Qed.
+Print Assumptions C01_example_bcdd.
+
+Theorem C01_example_zbdd : WF ex_zbdd /\ terms_kind ex_zbdd.
+Proof. exact (proj1 (wf_full_b_spec ex_zbdd) (proj1 ex_zbdd_ok)). Qed.
+Print Assumptions C01_example_zbdd.
+
+Theorem C01_example_bdd : WF ex_snap /\ terms_kind ex_snap.
+Proof. exact ex_snap_WFfull. Qed.
+Print Assumptions C01_example_bdd.
